@@ -6,9 +6,19 @@ H = os.path.join(VERIF, "harness")
 CC_DEFS = ["HAS_PTHREAD=1", "HAS_UNISTD=1", "HAS_GETOPT=1", "HAS_LIBGEN=1", "HAS_STRDUP=1", "HAS_GLOB=1"]
 
 
-def ejob(ctx, name, src, entry, funcs, defines=(), **kw):
+CC_NATIVE = ["stringbuilder.c", "array.c", "opcode.c", "instruction.c", "valuetype.c", "sha1.c", "export.c", "debug.c", "section.c"]
+
+
+def ejob(ctx, name, src, entry, funcs, defines=(), native_src=None, **kw):
+    """native_src: repository translation units to link when the harness is replayed natively (None: those c.c needs, minus the ones the harness #includes itself)"""
     inc = [os.path.join(ctx.repo, "w2c2"), H]
-    kw.setdefault("replay", lambda c, j, p, v: native_replay_generic(c, j, p, v))
+    text = open(os.path.join(H, src)).read()
+    if native_src is None:
+        native_src = [f for f in CC_NATIVE if ('#include "%s"' % f) not in text]
+        if '#include "sb_recorder.h"' in text:
+            native_src = [f for f in native_src if f != "stringbuilder.c"]
+    extra = [os.path.join(ctx.repo, "w2c2", f) for f in native_src]
+    kw.setdefault("replay", lambda c, j, p, v: native_replay_generic(c, j, p, v, extra_cflags=extra))
     info = kw.pop("info", {})
     info.setdefault("allow_no_body", [])
     return Job(name, os.path.join(H, src), entry=entry, includes=inc, defines=CC_DEFS + list(defines), funcs=funcs, info=info, **kw)
